@@ -405,8 +405,14 @@ func (c *Checker) CheckVerdicts(p Program, sc Scope, code string, known map[stri
 		// counterexample: decode, predict, compute the reference verdict, replay natively
 		data, desc := g.Concrete(m)
 		var expected, predicted []string
+		specified := map[string]bool{} // observations whose outcome the documentation determines on this graph
+		defined := map[string]bool{}
 		sig, vclass := "", ""
 		for _, o := range obs {
+			defined[rkey(o.v.Level, o.v.Name, o.node)] = true
+			if evalBool(o.spec, m) {
+				specified[rkey(o.v.Level, o.v.Name, o.node)] = true
+			}
 			if evalBool(o.expected, m) {
 				expected = append(expected, rkey(o.v.Level, o.v.Name, o.node))
 			}
@@ -423,7 +429,7 @@ func (c *Checker) CheckVerdicts(p Program, sc Scope, code string, known map[stri
 		}
 		sort.Strings(expected)
 		sort.Strings(predicted)
-		status, detail, actual := c.confirmVerdict(out.Profile, data, g, expected, predicted)
+		status, detail, actual := c.confirmVerdict(out.Profile, data, g, expected, predicted, specified, defined)
 		if status == "violation" && sig != "" && known[sig] {
 			out.KnownHits = append(out.KnownHits, KnownHit{sig, data, detail, true})
 			excluded[vclass] = true
@@ -440,7 +446,9 @@ func (c *Checker) CheckVerdicts(p Program, sc Scope, code string, known map[stri
 }
 
 // confirmVerdict replays a counterexample document through the real entry point.
-func (c *Checker) confirmVerdict(profile, data string, g *Graph, expected, predicted []string) (string, string, []string) {
+// Only observations the documentation determines on this graph count (specified; nil = all): a
+// difference on an unspecified one is not a violation, whatever the model predicted.
+func (c *Checker) confirmVerdict(profile, data string, g *Graph, expected, predicted []string, specified, defined map[string]bool) (string, string, []string) {
 	outs, err := c.Drv.Validate([]ValIn{{Profile: profile, Data: data}})
 	if err != nil || outs[0].Error != "" {
 		return "model-mismatch", fmt.Sprintf("native replay failed: %v %s", err, outs[0].Error), nil
@@ -449,9 +457,22 @@ func (c *Checker) confirmVerdict(profile, data string, g *Graph, expected, predi
 	if perr != nil {
 		return "model-mismatch", perr.Error(), nil
 	}
-	if strings.Join(actual, ",") == strings.Join(expected, ",") {
+	restrict := func(xs []string) []string {
+		if specified == nil {
+			return xs
+		}
+		var out []string
+		for _, x := range xs {
+			// results that are no observation of the program at all (stray) always count
+			if specified[x] || !defined[x] {
+				out = append(out, x)
+			}
+		}
+		return out
+	}
+	if strings.Join(restrict(actual), ",") == strings.Join(restrict(expected), ",") {
 		// the real implementation agrees with the reference on this graph: my Rego model is wrong
-		return "model-mismatch", "real implementation agrees with the reference on the solver's graph; regosym predicted " + strings.Join(predicted, ","), actual
+		return "model-mismatch", "real implementation agrees with the reference on the solver's graph (on the observations the documentation determines); regosym predicted " + strings.Join(predicted, ","), actual
 	}
 	return "violation", fmt.Sprintf("reference expects [%s], implementation reports [%s]", strings.Join(expected, " "), strings.Join(actual, " ")), actual
 }
